@@ -317,7 +317,9 @@ func genC12(g *Gen, tier string) *Case {
 		for _, o := range order {
 			ops = append(ops, TL(TNi(cmsMerge), TNi(0), TNi(o+1)))
 			if dims[o+1] != dims[0] { // a rejected merge is rejected in both directions and changes neither
-				ops = append(ops, TL(TNi(cmsMerge), TNi(o+1), TNi(0)))
+				// (also not what Export shows: derived fields such as the running total)
+				ops = append(ops, TL(TNi(opExport), TNi(o+1), TNi(5000+2*o)), TL(TNi(cmsMerge), TNi(o+1), TNi(0)),
+					TL(TNi(opExport), TNi(o+1), TNi(5001+2*o)))
 				for _, x := range pool[:1+len(pool)/2] {
 					ops = append(ops, cmsCountOp(g, o+1, x))
 				}
@@ -464,6 +466,14 @@ func monitorCMS(backend string, prop string) Monitor {
 				}
 				if !same && isOk(o) {
 					out = append(out, MonViolation{backend + "/Merge/mismatch-accepted", "merge of different dimensions succeeded", step})
+				}
+				if !same && !isOk(o) && step > 0 && step+1 < len(ops) {
+					p, n := ops[step-1].L, ops[step+1].L
+					if p[0].I() == opExport && n[0].I() == opExport && p[1].I() == a[1].I() && n[1].I() == a[1].I() &&
+						isOk(obs[step-1]) && isOk(obs[step+1]) && obs[step-1].String() != obs[step+1].String() {
+						out = append(out, MonViolation{backend + "/Merge/rejected-but-changed-receiver",
+							"a merge rejected for different dimensions changed what the receiver exports", step})
+					}
 				}
 				if isOk(o) && same && x != y {
 					for k, v := range y.counts {
